@@ -244,7 +244,11 @@ def check(case):
         bad = np.abs(g - r) > atol + 1e-11 * np.abs(r)
     else:
         # interval over perturbed intermediate values
-        d = 8 * 2.3e-16 * 1e4 * maxnode   # in cm2, on a and b
+        # in cm2, on a and b: float64 cancellation (8 eps) plus the weight uncertainty from log10(P) itself -- one ulp of
+        # log10 P over the node spacing moves the pressure weight by ulp/dlogP, times the neighbouring node
+        lp_ = [math.log10(p) for p in Pg]
+        dl_ = min([b_ - a_ for a_, b_ in zip(lp_[:-1], lp_[1:])] or [1.0])
+        d = (8 * 2.3e-16 + 4 * float(np.spacing(max(abs(x_) for x_ in lp_))) / dl_) * 1e4 * maxnode
         rs = []
         for sa in (-1, 0, 1):
             for sb in (-1, 0, 1):
